@@ -3,6 +3,8 @@ package props
 
 import (
 	"fmt"
+	"math"
+	"strconv"
 
 	"github.com/tidwall/geojson/geometry"
 
@@ -208,4 +210,12 @@ func shapeBox(s *exact.Shape) (mn, mx exact.P) {
 		mn.Y, mx.Y = min(mn.Y, p.Y), max(mx.Y, p.Y)
 	}
 	return
+}
+
+// fmtFloat renders a float the way the library's serialiser does.
+func fmtFloat(f float64) string {
+	if math.IsNaN(f) || math.IsInf(f, 0) {
+		return "null"
+	}
+	return strconv.FormatFloat(f, 'f', -1, 64)
 }
